@@ -40,6 +40,8 @@ type Profile struct {
 	OnlyErrOutputs bool
 	// PDeployExpr: percent of deploy latencies taken from an earlier step's output.
 	PDeployExpr int
+	// IgnoreCancel: percent of steps that ignore the cancel signal (forces the closure timeout path).
+	IgnoreCancel int
 }
 
 // Doc is a workflow input document.
@@ -242,6 +244,9 @@ func (g *genCtx) genPluginStep(id string) *Step {
 	}
 	if g.pct(g.prof.PNoSignal, "nosignal") {
 		s.NoSignal = true
+	}
+	if g.pct(g.prof.IgnoreCancel, "ignore_cancel") {
+		s.In = append(s.In, F("on_cancel", Lit("ignore")))
 	}
 	if g.pct(g.prof.PWaitFor, "waitfor") {
 		if p := g.pickPrior("wf_src"); p != nil {
